@@ -72,8 +72,18 @@ Theorem C11_reader_reports_writer :
         /\ a_data_offset a = a_header_size a.
 Proof. exact reader_reports_writer. Qed.
 
+(* the CLI writer's archive file holds nothing but what this run writes (so that it ends with the last chunk): the
+   path is new, or -- with --force-create -- truncated when opened; never appended to (Generated.v, regenerated) *)
+Theorem C11_archive_file_starts_empty :
+  (forall o, compress_open_write o = true) /\
+  (forall o, compress_open_truncate o = z_force_create o) /\
+  (forall o, compress_open_create_new o = negb (z_force_create o)) /\
+  (forall o, compress_open_append o = false).
+Proof. repeat split; reflexivity. Qed.
+
 Print Assumptions C11_reader_reports_writer.
 Print Assumptions C11_compress_conforming.
 Print Assumptions C11_header_layout.
 Print Assumptions C11_archive_is_header_then_chunks.
 Print Assumptions C11_decode_encode_dict.
+Print Assumptions C11_archive_file_starts_empty.
